@@ -437,6 +437,12 @@ def rule_f(ctx: Ctx) -> None:
             if not (isinstance(s_.slice, ast.Slice) and s_.slice.lower is not None and isinstance(s_.ctx, ast.Load)):
                 continue
             lo = s_.slice.lower
+            if isinstance(lo, ast.Name):
+                # bound computed in a local first: follow a single binding
+                f0 = m.enclosing_func(s_)
+                binds = [st.value for st in (walk_no_nested(f0.node) if f0 else []) if isinstance(st, ast.Assign) and len(st.targets) == 1 and norm(st.targets[0]) == lo.id]
+                if len(binds) == 1:
+                    lo = binds[0]
             subs = [x for x in ast.walk(lo) if isinstance(x, ast.BinOp) and isinstance(x.op, ast.Sub) and not (isinstance(x.left, ast.Constant) and isinstance(x.right, ast.Constant))]
             if not subs:
                 continue
